@@ -22,6 +22,8 @@ type hraftNode struct {
 	leader bool
 	id     int
 	down   bool
+	// snapshot: the chunks written to the sink by the last Snapshot()
+	snapshot []value
 }
 
 const hraftPkg = "github.com/hashicorp/raft"
@@ -161,7 +163,59 @@ func init() {
 		}
 		return i.hraftFuture(nil, resp)
 	}
-	for _, m := range []string{"AddVoter", "RemoveServer", "Snapshot", "LeadershipTransfer", "AddNonvoter", "DemoteVoter"} {
+	// Snapshot: what raft's snapshot goroutine does with the state machine — FSM.Snapshot(), Persist into
+	// a sink (an in-memory one whose ID carries a concrete millisecond stamp), Release. The persisted
+	// bytes are kept on the node. Log compaction and shipping the snapshot to other nodes are outside.
+	intrinsics["(*"+hraftPkg+".Raft).Snapshot"] = func(fr *frame, args []value) value {
+		i := fr.i
+		n := hraftOf(args[0])
+		f := n.fsm.(iface)
+		m := findMethod(i, f.t, "Snapshot")
+		if m == nil {
+			panic(abortPath{why: "raft model: FSM has no Snapshot", kind: "unsupported"})
+		}
+		r := callSSA(i, fr, token.NoPos, m, []value{f.v}, nil).(tuple)
+		if e, ok := r[1].(iface); ok && e.t != nil {
+			return i.hraftFuture(r[1], nil)
+		}
+		snap := r[0].(iface)
+		sinkT := i.hraftType("InmemSnapshotSink")
+		z := zero(sinkT)
+		sink := iface{t: types.NewPointer(sinkT), v: &z}
+		n.snapshot = nil
+		i.hraftSink = n
+		var perr value = iface{}
+		if pm := findMethod(i, snap.t, "Persist"); pm != nil {
+			perr = callSSA(i, fr, token.NoPos, pm, []value{snap.v, sink}, nil)
+		}
+		if rm := findMethod(i, snap.t, "Release"); rm != nil {
+			callSSA(i, fr, token.NoPos, rm, []value{snap.v}, nil)
+		}
+		return i.hraftFuture(perr, nil)
+	}
+	intrinsics["(*"+hraftPkg+".InmemSnapshotSink).ID"] = func(fr *frame, args []value) value {
+		return "1-1-1700000000000"
+	}
+	intrinsics["(*"+hraftPkg+".InmemSnapshotSink).Write"] = func(fr *frame, args []value) value {
+		if n := fr.i.hraftSink; n != nil {
+			n.snapshot = append(n.snapshot, args[1])
+		}
+		var ln value
+		switch x := args[1].(type) {
+		case symStr:
+			ln = ropeLen(x)
+		case string:
+			ln = len(x)
+		case []value:
+			ln = len(x)
+		default:
+			ln = int(0)
+		}
+		return tuple{ln, nilErr()}
+	}
+	intrinsics["(*"+hraftPkg+".InmemSnapshotSink).Close"] = func(fr *frame, args []value) value { return nilErr() }
+	intrinsics["(*"+hraftPkg+".InmemSnapshotSink).Cancel"] = func(fr *frame, args []value) value { return nilErr() }
+	for _, m := range []string{"AddVoter", "RemoveServer", "LeadershipTransfer", "AddNonvoter", "DemoteVoter"} {
 		intrinsics["(*"+hraftPkg+".Raft)."+m] = func(fr *frame, args []value) value {
 			return fr.i.hraftFuture(nil, nil)
 		}
